@@ -808,8 +808,8 @@ func Run(tier string, seed uint64, modelPath, repo string, out *res.Result) erro
 	}{
 		{"words", 15, genOpts{maxLeaves: 8, maxWord: 12}, false},
 		{"br+config", 20, genOpts{maxLeaves: 8, maxWord: 12, brs: true}, true},
-		{"spans", 25, genOpts{maxLeaves: 8, maxWord: 8, brs: true, spans: true, maxDepth: 1}, true},
-		{"spans+atoms", 15, genOpts{maxLeaves: 8, maxWord: 8, brs: true, spans: true, maxDepth: 1, atoms: true}, true},
+		{"spans", 25, genOpts{maxLeaves: 8, maxWord: 8, brs: true, spans: true, maxDepth: 1, vpad: true}, true},
+		{"spans+atoms", 15, genOpts{maxLeaves: 8, maxWord: 8, brs: true, spans: true, maxDepth: 1, atoms: true, vpad: true}, true},
 		// defect domains (known findings): the start edge of an inline box; a space directly before <br>
 		{"left-edges", 10, genOpts{maxLeaves: 8, maxWord: 8, brs: true, spans: true, maxDepth: 1, atoms: true, leftEdges: true}, true},
 		{"atoms-in-spans", 5, genOpts{maxLeaves: 8, maxWord: 8, brs: true, spans: true, maxDepth: 1, atoms: true, atomsInSpans: true}, true},
@@ -851,7 +851,7 @@ func Run(tier string, seed uint64, modelPath, repo string, out *res.Result) erro
 		c.ws = "normal"
 		c.indent = rng.Pick(cr, c.fs, 2*c.fs, -c.fs, 7, c.fs/2, 3*c.fs)
 		c.pageLines = cr.Range(1, 3)
-		p := genPara(cr, genOpts{maxLeaves: 10, maxWord: 6, spans: cr.Bool(), maxDepth: 1}, c.fs)
+		p := genPara(cr, genOpts{maxLeaves: 10, maxWord: 6, spans: cr.Bool(), maxDepth: 1, vpad: true}, c.fs)
 		out.Hit("stage:pages+indent")
 		if err := rn.sweep(cr, p, c, cseed, p.longest()+3); err != nil {
 			return err
@@ -901,10 +901,10 @@ func Run(tier string, seed uint64, modelPath, repo string, out *res.Result) erro
 		mode  string
 	}{
 		{"J:last-child-nesting", 15, genOpts{}, "nest"},
-		{"J:nested-end-edges", 15, genOpts{maxLeaves: 6, maxWord: 6, spans: true, maxDepth: 3}, "normal"},
+		{"J:nested-end-edges", 15, genOpts{maxLeaves: 6, maxWord: 6, spans: true, maxDepth: 3, vpad: true}, "normal"},
 		{"J:wrap-modes", 25, genOpts{maxLeaves: 6, maxWord: 10, spans: true, maxDepth: 2}, "wrap"},
-		{"J:valign", 25, genOpts{maxLeaves: 6, maxWord: 5, spans: true, maxDepth: 3, atoms: true, atomsInSpans: true, va: true}, "normal"},
-		{"J:all", 20, genOpts{maxLeaves: 7, maxWord: 8, brs: true, spans: true, maxDepth: 3, atoms: true, atomsInSpans: true, leftEdges: true, edgeSpaces: true, va: true}, "any"},
+		{"J:valign", 25, genOpts{maxLeaves: 6, maxWord: 5, spans: true, maxDepth: 3, atoms: true, atomsInSpans: true, va: true, vpad: true}, "normal"},
+		{"J:all", 20, genOpts{maxLeaves: 7, maxWord: 8, brs: true, spans: true, maxDepth: 3, atoms: true, atomsInSpans: true, leftEdges: true, edgeSpaces: true, va: true, vpad: true}, "any"},
 	}
 	for _, st := range jstages {
 		target := rn.n + jbudget*st.share/100
